@@ -48,7 +48,9 @@ def configs(draw):
          # the same compiled Trainer is fitted a second time (other epoch count, validation loader swapped in/out)
          "refit": draw(st.sampled_from([None, None, 1, 2])),
          # before test(): the root says eval but a mode-dependent child was switched back to training on its own
-         "child_train_before_test": draw(st.booleans())}
+         "child_train_before_test": draw(st.booleans()),
+         # the Trainer was compiled before, with other collaborators (an evaluator that the final compile() leaves out)
+         "recompile": draw(st.sampled_from([False, False, True]))}
     return c
 
 
@@ -194,6 +196,14 @@ def check_fit(c, rec):
         rec.tag("constructed_under_no_grad")
     else:
         trainer = train_mod.Trainer(model, sg)
+        if c.get("recompile"):
+            stale_calls = []
+
+            def stale_metric(y_true, y_pred):
+                stale_calls.append(1)
+                return [("stale", np.float64(0.0))]
+            trainer.compile(loss_spy, opt, train_mod.Evaluator(mode=ev_mode, accuracy=True, epoch_callback=stale_metric))
+            rec.tag("compiled_twice")
         trainer.compile(loss_spy, opt, evaluator)
     for _ in range(c.get("peek", 0)):
         # a shape check on the first batch(es) before training: the loader must still deliver every batch of every epoch
